@@ -10,7 +10,7 @@ ARRAY_SCHEMES = ['CJJ14.PiPtr', 'CJJ14.Pi2Lev', 'CGKO06.SSE1', 'DP17.Pi']
 
 
 def describe(tier):
-    n = 6 if tier == 'quick' else 8
+    n = 7 if tier == 'quick' else 9
     return {
         'rule': 'part A (PiBas, PiPack, PiPtr, Pi2Lev, CT14, ANSS16): case = (scheme, configuration point, partition of N<=%d with <= 4 '
                 'keywords, permutation of the keyword order) - ALL permutations (<= 24) under ONE fixed key; oracle: the key sequence of every '
@@ -72,7 +72,7 @@ def a_points(name, tier):
 
 
 def a_profiles(tier):
-    n = 6 if tier == 'quick' else 8
+    n = 7 if tier == 'quick' else 9
     out = []
     for N in range(1, n + 1):
         for p in sorted(domains.partitions(N), key=lambda p: (len(p), p)):
